@@ -1,7 +1,7 @@
 ; harness ListingAtStartUp assert L3-listed-iff-requested-matching-and-permitted expected unsat
 (set-logic ALL)
-(declare-const perm_Wallet1_acc2 Bool)
-(assert perm_Wallet1_acc2)
-(define-fun t495 () Bool (not perm_Wallet1_acc2))
-(assert t495)
+(declare-const perm_Wallet1_Val_1 Bool)
+(assert perm_Wallet1_Val_1)
+(define-fun t509 () Bool (not perm_Wallet1_Val_1))
+(assert t509)
 (check-sat)
